@@ -541,6 +541,12 @@ func blockContainerLayout(context *layoutContext, box_ Box, bottomSpace pr.Float
 			positionY = pr.Max(maxFloatPositionY, positionY)
 		}
 		newBox.Height = positionY - newBox.ContentBoxY()
+		if collapsingThrough {
+			// The margins collapse through this empty box: positionY is not
+			// its bottom edge, and the difference above is minus the collapsed
+			// margin (a positive height when that margin is negative).
+			newBox.Height = pr.Float(0)
+		}
 	}
 
 	if newBox.Style.GetPosition().String == "relative" {
